@@ -7,7 +7,7 @@ MODEL_VO = ["theories/Rx/Spec.vo"]
 PROOF_VO = ["theories/C07/Props.vo"]
 PROPS_V = "theories/C07/Props.v"
 EXTRACT = "extract/Rx.v"
-DEPS = ["Pkg", "Rx"]
+DEPS = ["Pkg", "Rx", "C01", "C15"]
 DESIGN_REF = "DESIGN.md section 5, C07"
 TECHNIQUE = "Coq proof that every package decoder is 'streamable' (by closure of the parser combinators) + exhaustive-prefix correspondence with every ReadFrom of the implementation"
 RULE = ("for every valid encoding generated for the package layer (all registered kinds; formats over all data types; params/rows over all decodable data types "
